@@ -3,6 +3,7 @@ From Coq Require Import List NArith ZArith Bool.
 From Coq Require Import Strings.Byte.
 From NfpmV Require Import Lib.Bytes Model.Meta Spec.C02.
 From NfpmV Require Import Proofs.C02Proofs.
+From NfpmV Require Import Model.Content Model.Deb822 Proofs.Deb822Proofs Proofs.ControlFields.
 Import ListNotations.
 
 (* deb / ipk: the Debian unfolding of what the "multiline" template function wrote gives back the synopsis
@@ -28,3 +29,54 @@ Print Assumptions C02_description_dot_line_refuted.
 Theorem C02_arch_override_verbatim : forall table o a, nonempty o = true -> translate_arch table o a = o.
 Proof. exact override_verbatim. Qed.
 Print Assumptions C02_arch_override_verbatim.
+
+From Coq Require Import String.
+Local Open Scope string_scope.
+Local Open Scope list_scope.
+
+(* ---- the control file as text (Model/Deb822.v): "Key: value" lines with continuation lines, and the reader of it ---- *)
+
+(* any list of well-formed fields reads back as itself: keys, values, order, continuation lines *)
+Theorem C02_control_text_roundtrip : forall fs,
+  Forall (fun f => wf_dfield f = true) fs -> d_read (d_write fs) = Some (map kv_of fs).
+Proof. exact d_roundtrip. Qed.
+Print Assumptions C02_control_text_roundtrip.
+
+(* the text the metadata model composes for a deb (which every run compares byte for byte with the control member of
+   the real package) IS the text of a field list: identity, version, architecture, relations in the template's order,
+   the description with its continuation lines, the custom fields *)
+Theorem C02_deb_control_is_field_text : forall archtab i k, deb_control archtab i k = d_write (deb_fields archtab i k).
+Proof. exact deb_control_is_field_text. Qed.
+Print Assumptions C02_deb_control_is_field_text.
+
+(* ... and a reader recovers exactly that list, the description field included for EVERY description (it is
+   well formed by construction: wf_descf); the premise is a boolean over the single-line values as rendered (no
+   newline in a name, a version, a joined relation list ...; custom field names are keys) *)
+Theorem C02_deb_control_reads_back : forall archtab i k, control_single_lines archtab i k = true ->
+  d_read (deb_control archtab i k) = Some (map kv_of (deb_fields archtab i k)).
+Proof. exact deb_control_reads_back. Qed.
+Print Assumptions C02_deb_control_reads_back.
+
+Theorem C02_deb_control_states_identity : forall archtab i k, control_single_lines archtab i k = true ->
+  exists fs, d_read (deb_control archtab i k) = Some fs
+             /\ d_get (B "Package") fs = Some (gs i "name")
+             /\ d_get (B "Version") fs = Some (deb_version i)
+             /\ d_get (B "Architecture") fs = Some (deb_arch_value archtab i).
+Proof. exact deb_control_states_identity. Qed.
+Print Assumptions C02_deb_control_states_identity.
+
+(* the premise is satisfiable, with relations, a multi-line description and a custom field *)
+Example C02_control_example :
+  let i := {| mi_s := [(B "name", B "foo"); (B "version", B "1.2.3"); (B "prerelease", B "rc1"); (B "release", B "2");
+                        (B "epoch", B "1"); (B "arch", B "amd64"); (B "platform", B "linux"); (B "section", B "utils");
+                        (B "maintainer", B "M <m@example.com>"); (B "description", B (String.append "synopsis" (String (Ascii.ascii_of_nat 10) (String.append "second line" (String (Ascii.ascii_of_nat 10) (String (Ascii.ascii_of_nat 10) "after a blank"))))))];
+              mi_l := [(B "depends", [B "bash"; B "libc6 (>= 2.17)"])];
+              mi_f := [(B "deb.fields", [(B "Bugs", B "https://example.com")])]; mi_n := [] |} in
+  control_single_lines [] i 12 = true
+  /\ d_read (deb_control [] i 12) =
+     Some [(B "Package", B "foo"); (B "Version", B "1:1.2.3~rc1-2"); (B "Section", B "utils"); (B "Priority", B "optional");
+           (B "Architecture", B "amd64"); (B "Maintainer", B "M <m@example.com>"); (B "Installed-Size", B "12");
+           (B "Depends", B "bash, libc6 (>= 2.17)");
+           (B "Description", B (String.append "synopsis" (String (Ascii.ascii_of_nat 10) (String.append " second line" (String (Ascii.ascii_of_nat 10) (String.append " ." (String (Ascii.ascii_of_nat 10) " after a blank")))))));
+           (B "Bugs", B "https://example.com")].
+Proof. vm_compute. split; reflexivity. Qed.
